@@ -42,55 +42,56 @@ theorem step_w (t : Task) : ⦃fun st => ⌜StoreWF st⌝⦄ step cfg rec t ⦃Q
   have h8 := compareLists_w cfg rec hrec
   have h9 := objectMember_w rec hrec
   have h10 := sliceArg_w rec hrec
-  have h11 := builtinCall2_w cfg rec hrec
+  have h11 := builtinCall3_w cfg rec hrec
   have h12 := thunkBody_w cfg rec hrec
+  have h13 := binaryOp3_w cfg rec hrec
   cases t with
   | force t d => unfold step; mvcgen [h12]; wfin
-  | asserts o d => unfold step; mvcgen [h, h1, h2, h3, h4, h5, h6, h7, h8, h9, h10, h11]; wfin
-  | deep v d => unfold step; mvcgen [h, h1, h2, h3, h4, h5, h6, h7, h8, h9, h10, h11]; wfin
-  | manifest v d c => unfold step; mvcgen [h, h1, h2, h3, h4, h5, h6, h7, h8, h9, h10, h11]; wfin
-  | equals a b d => unfold step; mvcgen [h, h1, h2, h3, h4, h5, h6, h7, h8, h9, h10, h11]; wfin
-  | compare a b d => unfold step; mvcgen [h, h1, h2, h3, h4, h5, h6, h7, h8, h9, h10, h11]; wfin
+  | asserts o d => unfold step; mvcgen [h, h1, h2, h3, h4, h5, h6, h7, h8, h9, h10, h11, h13]; wfin
+  | deep v d => unfold step; mvcgen [h, h1, h2, h3, h4, h5, h6, h7, h8, h9, h10, h11, h13]; wfin
+  | manifest v d c => unfold step; mvcgen [h, h1, h2, h3, h4, h5, h6, h7, h8, h9, h10, h11, h13]; wfin
+  | equals a b d => unfold step; mvcgen [h, h1, h2, h3, h4, h5, h6, h7, h8, h9, h10, h11, h13]; wfin
+  | compare a b d => unfold step; mvcgen [h, h1, h2, h3, h4, h5, h6, h7, h8, h9, h10, h11, h13]; wfin
   | eval e env tail d =>
     cases e with
     | object ms =>
-      unfold step; mvcgen [h, h1, h2, h3, h4, h5, h6, h7, h8, h9, h10, h11]
+      unfold step; mvcgen [h, h1, h2, h3, h4, h5, h6, h7, h8, h9, h10, h11, h13]
       case inv1 => exact QW (fun p => LayerNodup p.2)
       all_goals (first | wclose | wobjs)
     | objectComp locals name plus body spec =>
-      unfold step; mvcgen [h, h1, h2, h3, h4, h5, h6, h7, h8, h9, h10, h11]
+      unfold step; mvcgen [h, h1, h2, h3, h4, h5, h6, h7, h8, h9, h10, h11, h13]
       case inv1 => exact QW (fun p => LayerNodup p.2)
       all_goals (first | wclose | wobjs)
-    | null => (unfold step; mvcgen [h, h1, h2, h3, h4, h5, h6, h7, h8, h9, h10, h11]; wfin)
-    | true_ => (unfold step; mvcgen [h, h1, h2, h3, h4, h5, h6, h7, h8, h9, h10, h11]; wfin)
-    | false_ => (unfold step; mvcgen [h, h1, h2, h3, h4, h5, h6, h7, h8, h9, h10, h11]; wfin)
-    | self_ => (unfold step; mvcgen [h, h1, h2, h3, h4, h5, h6, h7, h8, h9, h10, h11]; wfin)
-    | dollar => (unfold step; mvcgen [h, h1, h2, h3, h4, h5, h6, h7, h8, h9, h10, h11]; wfin)
-    | str => (unfold step; mvcgen [h, h1, h2, h3, h4, h5, h6, h7, h8, h9, h10, h11]; wfin)
-    | num => (unfold step; mvcgen [h, h1, h2, h3, h4, h5, h6, h7, h8, h9, h10, h11]; wfin)
-    | paren => (unfold step; mvcgen [h, h1, h2, h3, h4, h5, h6, h7, h8, h9, h10, h11]; wfin)
-    | array => (unfold step; mvcgen [h, h1, h2, h3, h4, h5, h6, h7, h8, h9, h10, h11]; wfin)
-    | arrayComp => (unfold step; mvcgen [h, h1, h2, h3, h4, h5, h6, h7, h8, h9, h10, h11]; wfin)
-    | field => (unfold step; mvcgen [h, h1, h2, h3, h4, h5, h6, h7, h8, h9, h10, h11]; wfin)
-    | index => (unfold step; mvcgen [h, h1, h2, h3, h4, h5, h6, h7, h8, h9, h10, h11]; wfin)
-    | slice => (unfold step; mvcgen [h, h1, h2, h3, h4, h5, h6, h7, h8, h9, h10, h11]; wfin)
-    | superField => (unfold step; mvcgen [h, h1, h2, h3, h4, h5, h6, h7, h8, h9, h10, h11]; wfin)
-    | superIndex => (unfold step; mvcgen [h, h1, h2, h3, h4, h5, h6, h7, h8, h9, h10, h11]; wfin)
-    | call => (unfold step; mvcgen [h, h1, h2, h3, h4, h5, h6, h7, h8, h9, h10, h11]; wfin)
-    | var => (unfold step; mvcgen [h, h1, h2, h3, h4, h5, h6, h7, h8, h9, h10, h11]; wfin)
-    | local_ => (unfold step; mvcgen [h, h1, h2, h3, h4, h5, h6, h7, h8, h9, h10, h11]; wfin)
-    | if_ => (unfold step; mvcgen [h, h1, h2, h3, h4, h5, h6, h7, h8, h9, h10, h11]; wfin)
-    | binary => (unfold step; mvcgen [h, h1, h2, h3, h4, h5, h6, h7, h8, h9, h10, h11]; wfin)
-    | unary => (unfold step; mvcgen [h, h1, h2, h3, h4, h5, h6, h7, h8, h9, h10, h11]; wfin)
-    | objExt => (unfold step; mvcgen [h, h1, h2, h3, h4, h5, h6, h7, h8, h9, h10, h11]; wfin)
-    | func => (unfold step; mvcgen [h, h1, h2, h3, h4, h5, h6, h7, h8, h9, h10, h11]; wfin)
-    | assert_ => (unfold step; mvcgen [h, h1, h2, h3, h4, h5, h6, h7, h8, h9, h10, h11]; wfin)
-    | error_ => (unfold step; mvcgen [h, h1, h2, h3, h4, h5, h6, h7, h8, h9, h10, h11]; wfin)
-    | inSuper => (unfold step; mvcgen [h, h1, h2, h3, h4, h5, h6, h7, h8, h9, h10, h11]; wfin)
-    | importLit => (unfold step; mvcgen [h, h1, h2, h3, h4, h5, h6, h7, h8, h9, h10, h11]; wfin)
-    | importTextBlock => (unfold step; mvcgen [h, h1, h2, h3, h4, h5, h6, h7, h8, h9, h10, h11]; wfin)
-    | importComputed => (unfold step; mvcgen [h, h1, h2, h3, h4, h5, h6, h7, h8, h9, h10, h11]; wfin)
-    | builtin => (unfold step; mvcgen [h, h1, h2, h3, h4, h5, h6, h7, h8, h9, h10, h11]; wfin)
+    | null => (unfold step; mvcgen [h, h1, h2, h3, h4, h5, h6, h7, h8, h9, h10, h11, h13]; wfin)
+    | true_ => (unfold step; mvcgen [h, h1, h2, h3, h4, h5, h6, h7, h8, h9, h10, h11, h13]; wfin)
+    | false_ => (unfold step; mvcgen [h, h1, h2, h3, h4, h5, h6, h7, h8, h9, h10, h11, h13]; wfin)
+    | self_ => (unfold step; mvcgen [h, h1, h2, h3, h4, h5, h6, h7, h8, h9, h10, h11, h13]; wfin)
+    | dollar => (unfold step; mvcgen [h, h1, h2, h3, h4, h5, h6, h7, h8, h9, h10, h11, h13]; wfin)
+    | str => (unfold step; mvcgen [h, h1, h2, h3, h4, h5, h6, h7, h8, h9, h10, h11, h13]; wfin)
+    | num => (unfold step; mvcgen [h, h1, h2, h3, h4, h5, h6, h7, h8, h9, h10, h11, h13]; wfin)
+    | paren => (unfold step; mvcgen [h, h1, h2, h3, h4, h5, h6, h7, h8, h9, h10, h11, h13]; wfin)
+    | array => (unfold step; mvcgen [h, h1, h2, h3, h4, h5, h6, h7, h8, h9, h10, h11, h13]; wfin)
+    | arrayComp => (unfold step; mvcgen [h, h1, h2, h3, h4, h5, h6, h7, h8, h9, h10, h11, h13]; wfin)
+    | field => (unfold step; mvcgen [h, h1, h2, h3, h4, h5, h6, h7, h8, h9, h10, h11, h13]; wfin)
+    | index => (unfold step; mvcgen [h, h1, h2, h3, h4, h5, h6, h7, h8, h9, h10, h11, h13]; wfin)
+    | slice => (unfold step; mvcgen [h, h1, h2, h3, h4, h5, h6, h7, h8, h9, h10, h11, h13]; wfin)
+    | superField => (unfold step; mvcgen [h, h1, h2, h3, h4, h5, h6, h7, h8, h9, h10, h11, h13]; wfin)
+    | superIndex => (unfold step; mvcgen [h, h1, h2, h3, h4, h5, h6, h7, h8, h9, h10, h11, h13]; wfin)
+    | call => (unfold step; mvcgen [h, h1, h2, h3, h4, h5, h6, h7, h8, h9, h10, h11, h13]; wfin)
+    | var => (unfold step; mvcgen [h, h1, h2, h3, h4, h5, h6, h7, h8, h9, h10, h11, h13]; wfin)
+    | local_ => (unfold step; mvcgen [h, h1, h2, h3, h4, h5, h6, h7, h8, h9, h10, h11, h13]; wfin)
+    | if_ => (unfold step; mvcgen [h, h1, h2, h3, h4, h5, h6, h7, h8, h9, h10, h11, h13]; wfin)
+    | binary => (unfold step; mvcgen [h, h1, h2, h3, h4, h5, h6, h7, h8, h9, h10, h11, h13]; wfin)
+    | unary => (unfold step; mvcgen [h, h1, h2, h3, h4, h5, h6, h7, h8, h9, h10, h11, h13]; wfin)
+    | objExt => (unfold step; mvcgen [h, h1, h2, h3, h4, h5, h6, h7, h8, h9, h10, h11, h13]; wfin)
+    | func => (unfold step; mvcgen [h, h1, h2, h3, h4, h5, h6, h7, h8, h9, h10, h11, h13]; wfin)
+    | assert_ => (unfold step; mvcgen [h, h1, h2, h3, h4, h5, h6, h7, h8, h9, h10, h11, h13]; wfin)
+    | error_ => (unfold step; mvcgen [h, h1, h2, h3, h4, h5, h6, h7, h8, h9, h10, h11, h13]; wfin)
+    | inSuper => (unfold step; mvcgen [h, h1, h2, h3, h4, h5, h6, h7, h8, h9, h10, h11, h13]; wfin)
+    | importLit => (unfold step; mvcgen [h, h1, h2, h3, h4, h5, h6, h7, h8, h9, h10, h11, h13]; wfin)
+    | importTextBlock => (unfold step; mvcgen [h, h1, h2, h3, h4, h5, h6, h7, h8, h9, h10, h11, h13]; wfin)
+    | importComputed => (unfold step; mvcgen [h, h1, h2, h3, h4, h5, h6, h7, h8, h9, h10, h11, h13]; wfin)
+    | builtin => (unfold step; mvcgen [h, h1, h2, h3, h4, h5, h6, h7, h8, h9, h10, h11, h13]; wfin)
 
 end
 
